@@ -117,7 +117,7 @@ impl State {
                 out.push_str("V(");
                 for (i, x) in v.iter().enumerate() {
                     if i > 0 {
-                        out.push(' ');
+                        out.push(',');
                     }
                     self.verif_cell(out, x);
                 }
@@ -136,7 +136,7 @@ impl State {
             Cell::WithTag(_) => {
                 out.push_str("G(");
                 self.verif_cell(out, c.value());
-                out.push(' ');
+                out.push(',');
                 self.verif_map(out, c.tags().unwrap());
                 out.push(')');
             }
@@ -147,10 +147,10 @@ impl State {
         out.push_str("M(");
         for (i, (k, v)) in m.iter().enumerate() {
             if i > 0 {
-                out.push(' ');
+                out.push(',');
             }
             self.verif_cell(out, k);
-            out.push(' ');
+            out.push('=');
             self.verif_cell(out, v);
         }
         out.push(')');
@@ -179,14 +179,14 @@ impl State {
     fn verif_loop(&self, out: &mut String, l: &Loop) {
         out.push('(');
         self.verif_cell(out, &l.items);
-        write!(out, " {} {})", l.range.start, l.range.end).unwrap();
+        write!(out, ",{},{})", l.range.start, l.range.end).unwrap();
     }
 
     fn verif_frame(&self, out: &mut String, f: &Frame) {
-        write!(out, "({} {} [", f.fn_addr, f.return_to).unwrap();
+        write!(out, "({},{},[", f.fn_addr, f.return_to).unwrap();
         for (i, x) in f.locals.iter().enumerate() {
             if i > 0 {
-                out.push(' ');
+                out.push(',');
             }
             self.verif_cell(out, x);
         }
@@ -254,7 +254,7 @@ impl State {
             }
             ReverseStep::DropLocal(i) => write!(out, "DropLocal({})", i).unwrap(),
             ReverseStep::SwapRef(r, c) => {
-                write!(out, "SwapRef({} ", r.index()).unwrap();
+                write!(out, "SwapRef({},", r.index()).unwrap();
                 self.verif_cell(out, c);
                 out.push(')');
             }
